@@ -330,6 +330,52 @@ static int decode_scheduled(const unsigned char *buf, unsigned long size, int bu
   return 0;
 }
 
+/* ------------------------------------------------ stream summary (bytes) */
+/* For every scan of the stream: the Huffman tables (class 0) defined since the
+ * previous scan, and the bytes of the entropy-coded segment exactly as written
+ * (stuffed bytes and RSTn markers included), up to the marker that ends it.
+ *   " ; tb <id b1..b16 v..> [, <id ..>] / <scan 2> ; ecs <bytes> / <bytes>"            */
+static char *summary; static size_t sumlen, sumcap;
+static void sum_add(const char *fmt, long v)
+{
+  if (sumlen + 32 > sumcap) { sumcap = sumcap ? sumcap * 2 : 1 << 16; summary = (char *)realloc(summary, sumcap); }
+  sumlen += (size_t)sprintf(summary + sumlen, fmt, v);
+}
+static void stream_summary(const unsigned char *b, size_t n)
+{
+  size_t p = 2, i; int pass;
+  if (!summary) { sumcap = 1 << 16; summary = (char *)malloc(sumcap); }
+  sumlen = 0; summary[0] = 0;
+  for (pass = 0; pass < 2; pass++) {
+    int nscan = 0, ntb = 0;
+    sum_add(pass == 0 ? " ; tb%.0ld" : " ; ecs%.0ld", 0);
+    p = 2;
+    while (p + 4 <= n && b[p] == 0xFF) {
+      int m = b[p + 1]; size_t len = ((size_t)b[p + 2] << 8) | b[p + 3];
+      if (m == 0xD9) break;
+      if (m == 0xC4) {
+        size_t q = p + 4, e = p + 2 + len;
+        while (q + 17 <= e) {
+          int cnt = 0, k;
+          if (pass == 0) { if (ntb++) sum_add(" ,%.0ld", 0); sum_add(" %ld", b[q]); }
+          for (k = 1; k <= 16; k++) { cnt += b[q + k]; if (pass == 0) sum_add(" %ld", b[q + k]); }
+          if (pass == 0) for (k = 0; k < cnt; k++) sum_add(" %ld", b[q + 17 + k]);
+          q += 17 + (size_t)cnt;
+        }
+      }
+      p += 2 + len;
+      if (m == 0xDA) {
+        size_t q = p;
+        while (q + 1 < n && !(b[q] == 0xFF && b[q + 1] != 0 && !(b[q + 1] >= 0xD0 && b[q + 1] <= 0xD7))) q++;
+        if (pass == 1) { if (nscan) sum_add(" /%.0ld", 0); for (i = p; i < q; i++) sum_add(" %ld", b[i]); }
+        else { sum_add(" /%.0ld", 0); ntb = 0; }
+        nscan++;
+        p = q;
+      }
+    }
+  }
+}
+
 /* ------------------------------------------------------------- TurboJPEG */
 static void chan_offsets(int pf, int nc, int *off)
 {
@@ -460,6 +506,7 @@ int main(void)
       } else if (!strcmp(kind, "lj")) {
         int rc = lj_compress(prec, w, h, nc, rmode, rval, pf, scanmode, pp);
         if (rc) { printf("rej\n"); continue; }
+        stream_summary(jbuf, jsize);
         rc = decode_scheduled(jbuf, jsize, bufimg, w, h, nc, prec, outp, susmode, seed);
         free(jbuf); jbuf = NULL;
         if (rc) { printf("fail decode %d %d (suspension schedule %d, %ld suspensions)\n", rc, last_err, susmode, sus_count); continue; }
@@ -467,22 +514,23 @@ int main(void)
         for (ci = 0; ci < nc; ci++) if (edn[ci] != w * h || ddn[ci] != w * h) bad = 1;
         if (bad) { printf("fail observer-count\n"); continue; }
         printf("ok ed"); print_group(ed, nc, w * h); printf(" ; dd"); print_group(dd, nc, w * h);
-        printf(" ; out"); print_group(outp, nc, w * h); printf("\n");
+        printf(" ; out"); print_group(outp, nc, w * h); printf("%s\n", summary);
       } else if (!strcmp(kind, "tj")) {
         unsigned char *jpg = NULL; size_t js = 0; char why[256]; int rc, i;
         rc = tj_roundtrip(prec, w, h, nc, rmode, rval, pf, bottomup, pad, pp[0], pp[1], &jpg, &js, why);
         if (rc == 1) { printf("rej\n"); tj3Free(jpg); continue; }
         if (rc) { printf("fail tj %s\n", why); tj3Free(jpg); continue; }
+        stream_summary(jpg, js);
         rc = decode_scheduled(jpg, (unsigned long)js, bufimg, w, h, nc, prec, outp2, susmode, seed);
         tj3Free(jpg);
         if (rc) { printf("fail decode %d %d (suspension schedule %d, %ld suspensions)\n", rc, last_err, susmode, sus_count); continue; }
         if (hook_problem) { printf("fail observer\n"); continue; }
         for (ci = 0; ci < nc; ci++) { if (ddn[ci] != w * h) bad = 1; for (i = 0; i < w * h; i++) if (outp[ci][i] != outp2[ci][i]) bad = 2; }
         if (bad == 2 && susmode) {     /* report what the suspended libjpeg decode delivered */
-          printf("ok ed - ; dd"); print_group(dd, nc, w * h); printf(" ; out"); print_group(outp2, nc, w * h); printf("\n"); continue;
+          printf("ok ed - ; dd"); print_group(dd, nc, w * h); printf(" ; out"); print_group(outp2, nc, w * h); printf("%s\n", summary); continue;
         }
         if (bad) { printf("fail %s\n", bad == 1 ? "observer-count" : "tj3Decompress-differs-from-jpeg_read_scanlines"); continue; }
-        printf("ok ed - ; dd"); print_group(dd, nc, w * h); printf(" ; out"); print_group(outp, nc, w * h); printf("\n");
+        printf("ok ed - ; dd"); print_group(dd, nc, w * h); printf(" ; out"); print_group(outp, nc, w * h); printf("%s\n", summary);
       } else printf("?\n");
     }
   }
